@@ -817,7 +817,7 @@ Lemma inv_step cfg s s' : inv cfg s -> gstep cfg s s' -> inv cfg s'.
 Proof.
   intros I St. destruct St as
     [s i u Hi W | s i u cur hop f w' ev Hi W C | s i u cur hop w' ev keep Hi W L C | s i u cur hop t n Hi W
-    | s i u cur hop t n r p' w' ev keep Hi W C | s i u cur hop Hi W | s i u cur hop reply Hi W].
+    | s i u cur hop t n r p' w' ev keep Hi W C | s i u cur hop sub_ok Hi W | s i u cur hop reply Hi W].
   - (* pick *)
     apply (inv_quiet_step cfg s i (WCheck u u false) [] (g_locks s)); fin W.
     intros u' cur' H. cbn [wcur] in H. now injection H as <- <-.
@@ -852,7 +852,8 @@ Proof.
     + apply (inv_acq_end cfg s i u cur hop t n); try assumption. right. exists rules, []. repeat split. left. now repeat split.
     + apply (inv_acq_end cfg s i u cur hop t n); try assumption. right. exists rules, [EvSkipped i u]. repeat split. right. now split.
   - (* fetch send *)
-    now apply inv_fetch_send.
+    destruct sub_ok; [now apply inv_fetch_send|].
+    apply (inv_quiet_step cfg s i WIdle _ (g_locks s)); fin W.
   - (* fetch response *)
     change (g_trace s) with ([] ++ g_trace s).
     apply (inv_quiet_step cfg s i _ [] (g_locks s)); fin W.
@@ -943,12 +944,36 @@ Theorem robots_off_no_robots_traffic cfg s :
   forall e, In e (g_trace s) -> match e with EvFetchStart _ _ | EvRobotsReq _ _ _ | EvStored _ _ _ => False | _ => True end.
 Proof. intros R Hr. exact (proj2 (proj2 (inv_norobots _ _ (inv_reachable _ _ Hr) R))). Qed.
 
+(* the headline: whatever rules are (ever) stored for the origin of a requested URL allow that URL *)
+Theorem no_disallowed_request cfg s :
+  c_robots cfg = true -> reachable cfg s ->
+  forall w u cur hop, In (EvReq w u cur hop) (g_trace s) ->
+  (exists w' r, In (EvStored w' (u_origin cur) r) (g_trace s)) /\
+  forall w' r, In (EvStored w' (u_origin cur) r) (g_trace s) -> is_allowed r (c_ua cfg) (u_text cur) = true.
+Proof.
+  intros R Hr w u cur hop Hin. destruct (in_split _ _ Hin) as [t2 [t1 E]].
+  destruct (gate cfg s R Hr _ _ _ _ _ _ E) as [_ [w0 [r0 [t0 [H0 [A0 _]]]]]].
+  assert (H0' : In (EvStored w0 (u_origin cur) r0) (g_trace s)).
+  { rewrite E. apply in_or_app. right. now right. }
+  split; [now exists w0, r0|].
+  intros w' r H.
+  destruct (in_split _ _ H0') as [x [y Exy]].
+  rewrite Exy in H. apply in_app_or in H. destruct H as [H|[H|H]].
+  - (* the other store is newer: then ours is in its past *)
+    exfalso. destruct (in_split _ _ H) as [x1 [x2 Ex]].
+    assert (E2 : g_trace s = x1 ++ EvStored w' (u_origin cur) r :: (x2 ++ EvStored w0 (u_origin cur) r0 :: y)).
+    { rewrite Exy, Ex, <- app_assoc. reflexivity. }
+    apply (stored_once cfg s Hr _ _ _ _ _ E2 w0 r0). apply in_or_app. right. now left.
+  - injection H as _ <-. exact A0.
+  - exfalso. apply (stored_once cfg s Hr _ _ _ _ _ Exy w' r H).
+Qed.
+
 (* ------------------------------------------------------------------ *)
 (* 9. the step function used to replay observed runs                    *)
 (* ------------------------------------------------------------------ *)
 Lemma step_fun_sound cfg s l s' : step_fun cfg s l = Some s' -> gstep cfg s s'.
 Proof.
-  destruct l as [i u|i f|i|i|i r|i|i reply]; cbn [step_fun];
+  destruct l as [i u|i f|i|i|i r|i sub_ok|i reply]; cbn [step_fun];
     (destruct (Nat.ltb i (c_workers cfg)) eqn:Lt; cbn [negb]; [apply Nat.ltb_lt in Lt | discriminate]);
     destruct (g_workers s i) eqn:W; try discriminate.
   - intros H. injection H as <-. now apply StepPick.
@@ -960,7 +985,7 @@ Proof.
   - intros H. injection H as <-. now apply StepRobotsSend with (u := item) (cur := cur) (hop := hop) (t := target) (n := n).
   - destruct (on_robots_response cfg (g_pool s) i item cur hop n r) as [[[p' w'] ev] keep] eqn:C. intros H. injection H as <-.
     now apply StepRobotsResp with (u := item) (cur := cur) (hop := hop) (t := target) (n := n) (r := r).
-  - intros H. injection H as <-. now apply StepFetchSend with (u := item) (cur := cur) (hop := hop).
+  - intros H. injection H as <-. now apply StepFetchSend with (u := item) (cur := cur) (hop := hop) (sub_ok := sub_ok).
   - intros H. injection H as <-. now apply StepFetchResp with (u := item) (cur := cur) (hop := hop).
 Qed.
 
